@@ -1135,10 +1135,12 @@ func (x *btCtx) checkShapeAndLength(rel string) {
 }
 
 // checkBtreeSlicePrimitives: insertAt / removeAt / pop / truncate of the items and children slices.
-//   insertAt(i, x): *s = append(*s, nil); the tail [i:] is shifted to [i+1:] unless i is the new last index; (*s)[i] = x
-//   removeAt(i):    returns the old (*s)[i]; [i+1:] is shifted to [i:]; *s = (*s)[:len-1]
-//   pop():          returns the old (*s)[len-1]; *s = (*s)[:len-1]
-//   truncate(i):    *s = (*s)[:i]
+//
+//	insertAt(i, x): *s = append(*s, nil); the tail [i:] is shifted to [i+1:] unless i is the new last index; (*s)[i] = x
+//	removeAt(i):    returns the old (*s)[i]; [i+1:] is shifted to [i:]; *s = (*s)[:len-1]
+//	pop():          returns the old (*s)[len-1]; *s = (*s)[:len-1]
+//	truncate(i):    *s = (*s)[:i]
+//
 // Decided on the symbolic arguments (linear forms), for both copies, which therefore agree.
 func (c *Ctx) checkBtreeSlicePrimitives(rel string) {
 	noInl := func(*ssa.Function, int) bool { return false }
